@@ -469,13 +469,22 @@ where
             .get(index as usize)
             .ok_or(VhostUserError::InvalidParam)?;
 
+        // If the vring is already started, its current kick fd may be registered with a worker.
+        // Unregister it before it gets replaced (and closed), so that the new one is registered
+        // below instead of being silently ignored.
+        let started = vring.get_ref().get_queue().ready();
+        if started {
+            vring.set_queue_ready(false);
+            self.update_vring_registration(vring, index)?;
+        }
+
         // SAFETY: EventFd requires that it has sole ownership of its fd. So
         // does File, so this is safe.
         // Ideally, we'd have a generic way to refer to a uniquely-owned fd,
         // such as that proposed by Rust RFC #3128.
         vring.set_kick(file);
 
-        if self.vring_needs_init(vring) {
+        if started || self.vring_needs_init(vring) {
             self.initialize_vring(vring, index)?;
         }
 
